@@ -26,8 +26,12 @@ EXTENDS PMCollab
 Events == Input.events
 Docs == Input.docs
 
-VARIABLES i, tid, S, base
-vars == <<i, tid, S, base>>
+VARIABLES i, tid, S, base, taint
+vars == <<i, tid, S, base, taint>>
+(* taint: the clients that have rebased while one of their mark steps was pending.  From then on their
+   document may differ from the authority's in marks (the inverse of a mark step is exact only on the
+   document the step was made on), so for them the clauses are stated up to marks for the rest of the run. *)
+Exact(c) == c \notin taint /\ ~MarkPendingIn(S.cl[c].unconf)
 
 UnconfOf(e) == [j \in 1..Len(e.unconf) |-> [step |-> e.unconf[j].step, inv |-> e.unconf[j].inv]]
 (* the observed state of the acting client *)
@@ -46,7 +50,7 @@ VEdit(e) ==
    authority's in marks (see PMCollab!ConfirmedAgreeOf); then a remote step can fail on it for its
    marks.  That is the protocol's imprecision, not the library's: such events are skipped. *)
 VSend(e) ==
-  LET exact == ~MarkPendingIn(S.cl[e.c].unconf) IN
+  LET exact == Exact(e.c) IN
   IF ~CanSend(S, e.c) THEN "bad:TraceOrder"
   ELSE IF e.res.kind # "ok" THEN (IF exact THEN "bad:AuthorityRejected" ELSE "skip:MarkPending")
   ELSE IF ~AgreeUpTo(exact, AuthSnap(e), S.cl[e.c].doc) THEN "bad:AuthReplays"
@@ -54,7 +58,7 @@ VSend(e) ==
   ELSE LET r == SendRes(S, e.c) IN
        IF ~r.ok \/ r.S.auth.doc # AuthSnap(e) THEN "drift:Send" ELSE "ok"
 VReceive(e) ==
-  LET exact == ~MarkPendingIn(S.cl[e.c].unconf) IN
+  LET exact == Exact(e.c) IN
   IF ~CanReceive(S, e.c) THEN "bad:TraceOrder"
   ELSE IF e.res.kind # "ok" THEN (IF exact THEN "bad:RebaseRaised" ELSE "skip:MarkPending")
   ELSE IF ~AgreeUpTo(exact, ConfirmedSnap(e), S.auth.doc) THEN "bad:ConfirmedAgree"
@@ -81,6 +85,7 @@ TBegin(e) ==
   /\ tid' = e.tid
   /\ base' = Snap(Docs[e.base], e.ra)
   /\ S' = InitState(Snap(Docs[e.base], e.ra), 1..e.n)
+  /\ taint' = {}
   /\ PrintT(<<"V", e.id, IF Valid(Docs[e.base]) /\ Canon(Docs[e.base]) THEN "ok" ELSE "skip:pre">>)
 TAct(e) ==
   /\ tid' = tid /\ base' = base
@@ -88,7 +93,8 @@ TAct(e) ==
                          ELSE IF e.a = "edit" THEN VEdit(e)
                          ELSE IF e.a = "send" THEN VSend(e) ELSE VReceive(e)>>)
   /\ S' = Follow(e)
-Init == i = 0 /\ tid = -1 /\ base = Snap(<<>>, <<>>) /\ S = [auth |-> [doc |-> Snap(<<>>, <<>>), steps |-> <<>>, by |-> <<>>], cl |-> <<>>]
+  /\ taint' = IF e.tid = tid /\ e.a = "receive" /\ MarkPendingIn(S.cl[e.c].unconf) THEN taint \cup {e.c} ELSE taint
+Init == taint = {} /\ i = 0 /\ tid = -1 /\ base = Snap(<<>>, <<>>) /\ S = [auth |-> [doc |-> Snap(<<>>, <<>>), steps |-> <<>>, by |-> <<>>], cl |-> <<>>]
 Next == /\ i < Len(Events)
         /\ i' = i + 1
         /\ LET e == Events[i + 1] IN IF e.ev = "Begin" THEN TBegin(e) ELSE TAct(e)
